@@ -1,4 +1,5 @@
 import Econf.Lemmas.NumLemmas
+import Econf.Props.C07
 import Econf.KeyFileOps
 import Econf.Props.C11
 
@@ -156,5 +157,52 @@ theorem C08_bool :
 /-- non-vacuity: the limits of the types are in range and printed as expected -/
 example : showInt I32MIN = [0x2D, 0x32, 0x31, 0x34, 0x37, 0x34, 0x38, 0x33, 0x36, 0x34, 0x38] ∧
     showNat 0 = [0x30] ∧ I32MIN ≤ I32MIN ∧ I32MIN ≤ I32MAX := by decide
+
+/-! ### through a file (composition with C07) -/
+
+
+theorem forall_byte (P : Byte → Prop) [DecidablePred P] (h : ∀ n : Fin 256, P (UInt8.ofNat n.val)) (c : Byte) : P c := by
+  have := h ⟨c.toNat, c.toNat_lt⟩
+  simpa using this
+
+theorem numChar_props (c : Byte) : isNumChar c = true → isText c = true ∧ isSpace c = false ∧ c ≠ QUOTE := by
+  apply forall_byte (fun c => isNumChar c = true → isText c = true ∧ isSpace c = false ∧ c ≠ QUOTE)
+  decide +kernel
+
+/-- the text a typed integer setter stores is a 5.4 value for every comment character that is not a
+    digit or the minus sign: the `val` clause of `WEntry.WF` holds -/
+theorem C08_text_is_54 (c : Byte) (hc : isNumChar c = false) (i : Int) :
+    texts (showInt i) ∧ c ∉ showInt i ∧ (∀ ch, (showInt i).head? = some ch → isSpace ch = false ∧ ch ≠ QUOTE) ∧
+    (∀ ch, (showInt i).getLast? = some ch → isSpace ch = false) := by
+  have hall := C08_text_form i
+  refine ⟨fun ch hch => (numChar_props ch (hall ch hch)).1, ?_, ?_, ?_⟩
+  · intro hin; have := hall c hin; rw [hc] at this; cases this
+  · intro ch hch
+    have hm : ch ∈ showInt i := List.mem_of_mem_head? hch
+    exact ⟨(numChar_props ch (hall ch hm)).2.1, (numChar_props ch (hall ch hm)).2.2⟩
+  · intro ch hch
+    have hm : ch ∈ showInt i := List.mem_of_getLast? hch
+    exact (numChar_props ch (hall ch hm)).2.1
+
+/-- **C08 through a file** (integers): an entry whose value was stored by a typed integer setter is
+    written, read back with the same characters, and the typed getter returns the number – for every
+    int64 value, whatever else the object holds (composition of C07 and C08) -/
+theorem C08_through_file (d c : Byte) (hT : TagsWF d c) (ws : List WEntry)
+    (h : ∀ w ∈ ws, w.WF d c) (ho : Ordered none ws) (w : WEntry) (hw : w ∈ ws) (i : Int)
+    (hval : w.val = .plain (showInt i) []) (h1 : I64MIN ≤ i) (h2 : i ≤ I64MAX) :
+    ∃ st e, parseBytes (tagCfg d c) (writeSeq d c none (ws.map WEntry.toEntry)) = .ok st ∧ e ∈ st.entries ∧
+      e.group = w.group ∧ e.key = w.key ∧ getInt64 (e.value.getD []) = .ok i := by
+  obtain ⟨st, hp, he, _⟩ := C07_roundtrip d c hT ws h ho
+  have hm : w.toEntry.content ∈ st.entries.map Entry.content := by
+    rw [he]; exact List.mem_map.mpr ⟨w, hw, rfl⟩
+  obtain ⟨e, hem, hec⟩ := List.mem_map.mp hm
+  refine ⟨st, e, hp, hem, ?_, ?_, ?_⟩
+  · have := congrArg (·.1) hec; exact this
+  · have := congrArg (·.2.1) hec; exact this
+  · have hv : e.value.getD [] = w.toEntry.value.getD [] := congrArg (·.2.2.1) hec
+    rw [hv]
+    simp only [WEntry.toEntry, hval, WVal.value, List.flatMap_nil, List.append_nil, Option.getD_some]
+    exact C08_int64 i h1 h2
+
 
 end Econf
